@@ -2,6 +2,11 @@
 
 package bot
 
+import (
+	"github.com/Tnze/go-mc/net"
+	pk "github.com/Tnze/go-mc/net/packet"
+)
+
 // exported views of unexported functions for the C18 correspondence harness (never written to /repo)
 
 func VerifC18AuthDigest(serverID string, sharedSecret, publicKey []byte) string {
@@ -9,3 +14,8 @@ func VerifC18AuthDigest(serverID string, sharedSecret, publicKey []byte) string 
 }
 
 func VerifC18TwosComplement(p []byte) []byte { return twosComplement(p) }
+
+// phase 5: the bot side of the encryption handshake
+func VerifC18HandleEncryptionRequest(conn *net.Conn, c *Client, p pk.Packet) error {
+	return handleEncryptionRequest(conn, c, p)
+}
